@@ -39,6 +39,9 @@ pub struct LinkCfg {
     pub profile_name: &'static str,
     /// corruption is only injected when the receiving node verifies every checksum in software
     pub corrupt_ok: [bool; 2],
+    /// finer: which checksums (ipv4, udp, tcp, icmpv4, icmpv6) each node verifies in software on receive; when
+    /// given, a frame is damaged only if the receiver verifies every checksum that covers that frame
+    pub rx_verify: Option<[[bool; 5]; 2]>,
 }
 
 impl LinkCfg {
@@ -51,6 +54,7 @@ impl LinkCfg {
             fault_end: 0,
             profile_name: "clean",
             corrupt_ok: [true, true],
+            rx_verify: None,
         }
     }
     /// Swarm-style: a profile per run.
@@ -104,7 +108,7 @@ impl LinkCfg {
                 }
             }
         }
-        LinkCfg { dir, base_us, jitter_us, partitions, fault_end, profile_name: name, corrupt_ok: [true, true] }
+        LinkCfg { dir, base_us, jitter_us, partitions, fault_end, profile_name: name, corrupt_ok: [true, true], rx_verify: None }
     }
     pub fn describe(&self) -> String {
         format!(
@@ -254,7 +258,11 @@ impl World {
             return;
         }
         if t.chance(p.corrupt, 1000) {
-            if self.link.corrupt_ok[to] {
+            let covered = match (&self.link.rx_verify, &pkt) {
+                (Some(rv), Some(p)) => frame_checksums_verified(&rv[to], p),
+                _ => self.link.corrupt_ok[to],
+            };
+            if covered {
                 if let Some((c, class)) = corrupt(&frame, self.views[from].medium, t) {
                     self.stats.inc(if class == 1 {
                         "fault.corrupt-checksum-detectable"
@@ -582,4 +590,21 @@ pub fn lenient_decode(medium: Medium, b: &[u8]) -> Result<Lenient, LenientErr> {
         _ => {}
     }
     Ok(l)
+}
+
+/// Does a receiver with these software verifications (ipv4, udp, tcp, icmpv4, icmpv6) check every checksum that
+/// covers this frame?
+fn frame_checksums_verified(v: &[bool; 5], p: &Packet) -> bool {
+    let all = v.iter().all(|x| *x);
+    let Some(ip) = &p.ip else { return all };
+    if matches!(ip.src, crate::codec::IpAddr::V4(_)) && !v[0] {
+        return false;
+    }
+    match &p.l4 {
+        Some(crate::codec::L4::Udp(_)) => v[1],
+        Some(crate::codec::L4::Tcp(_)) => v[2],
+        Some(crate::codec::L4::Icmp4(_)) => v[3],
+        Some(crate::codec::L4::Icmp6(_)) => v[4],
+        _ => all,
+    }
 }
